@@ -123,10 +123,18 @@ func (c15Engine) Gen(t *rapid.T, tier string) any {
 				fallthrough
 			default:
 				var fs []simrt.FilterSpec
-				if rapid.IntRange(0, 2).Draw(t, "listing") > 0 {
+				switch rapid.IntRange(0, 5).Draw(t, "listing") {
+				case 0, 1, 2:
 					fs = []simrt.FilterSpec{{}}
-				} else {
+				case 3:
 					fs = []simrt.FilterSpec{genFilter(t, evs)}
+				default:
+					// several filters of one query must see ONE state of the store
+					a := rapid.IntRange(0, 2).Draw(t, "mf.author")
+					fs = []simrt.FilterSpec{{Authors: []string{ref.Authors[a].Pubkey}}, {Kinds: []int64{0, 3, 5, 10002, 30000, 30001}}}
+					if rapid.IntRange(0, 1).Draw(t, "mf.third") == 0 {
+						fs = append(fs, simrt.FilterSpec{Kinds: []int64{1, 7}})
+					}
 				}
 				ops = append(ops, c15Op{Op: "find", Filters: fs})
 			}
